@@ -87,7 +87,8 @@ def gen_case(rng, tier, idx):
         raw_names.append("bin/r%d.bin" % i)
     specs = []
     kinds = ["simple_file", "simple_file", "raw_file", "glob_file", "first_file", "foreach_collect", "simple_command", "foreach_execute",
-             "container_collect", "container_execute", "datasource_provider", "datasource_provider_list", "failing", "failing_cpe", "printf"]
+             "container_collect", "container_execute", "datasource_provider", "datasource_provider_list", "failing", "failing_cpe", "printf",
+             "foreach_echo"]
     for k in range(rng.randint(4, 11)):
         kind = rng.choice(kinds)
         s = {"kind": kind, "path": "/" + rng.choice(names), "save_as": rng.choice([None, None, "renamed_%d.txt" % k, "dir_%d/" % k, "/lead_%d/x" % k, "deep/er/d%d/" % k])}
@@ -101,6 +102,10 @@ def gen_case(rng, tier, idx):
             s["items"] = [["img%d" % j, rng.choice(["podman", "docker"]), "cid%d" % j] for j in range(rng.randint(1, 3))]
         if kind.startswith("datasource_provider"):
             s["content"] = [gen_content(rng, long_ok) for _ in range(rng.randint(1, 3))]
+        if kind == "foreach_echo":
+            # per-item commands whose argument is set but falsy (0, '') next to ordinary ones; the spec index keeps the
+            # mangled command names apart
+            s["items"] = rng.sample([0, "", "x%d" % k, 7, "a b"], rng.randint(2, 4))
         if kind == "printf":
             # the spec index makes the mangled command name (the data location) unique: mangle_command maps every
             # non-word character to '_', so commands differing only in punctuation would share one location
@@ -142,7 +147,7 @@ def build_specset(spec, root, uid, modname, created, reinvoked):
     from insights.core.plugins import datasource
     # ---- build the spec set ------------------------------------------
     dct = {"__module__": modname}
-    multi_kinds = ("glob_file", "foreach_collect", "foreach_execute", "container_collect", "container_execute", "datasource_provider_list")
+    multi_kinds = ("glob_file", "foreach_collect", "foreach_execute", "container_collect", "container_execute", "datasource_provider_list", "foreach_echo")
     for k, s in enumerate(spec["specs"]):
         dct["s%d" % k] = sf.RegistryPoint(multi_output=s["kind"] in multi_kinds, raw=s["kind"] == "raw_file")
     S = type("S%d" % uid, (sf.SpecSet,), dct)
@@ -178,6 +183,9 @@ def build_specset(spec, root, uid, modname, created, reinvoked):
         elif kind == "foreach_execute":
             pv = fn_ds("prov%d_%d" % (uid, k), (lambda items: (lambda broker: [os.path.join(root, i) for i in items]))(s["items"]), [HostContext])
             d = sf.foreach_execute(pv, "/bin/cat %s")
+        elif kind == "foreach_echo":
+            pv = fn_ds("prov%d_%d" % (uid, k), (lambda items: (lambda broker: list(items)))(s["items"]), [HostContext])
+            d = sf.foreach_execute(pv, "/bin/echo tag%d %%s" % k)
         elif kind == "container_collect":
             pv = fn_ds("prov%d_%d" % (uid, k), (lambda items: (lambda broker: [tuple(i) for i in items]))(s["items"]), [HostContext])
             d = sf.container_collect(pv, path)
@@ -375,7 +383,7 @@ def run_case(spec, ctx):
                             "spec": k, "kind": s["kind"], "element": j,
                             "persisted": (P[:6] if not isinstance(P, bytes) else repr(P[:80])), "loaded": (L[:6] if not isinstance(L, bytes) else repr(L[:80])),
                             "lens": [len(P), len(L)]}, spec=case)
-                    if s["kind"] in ("simple_command", "printf", "foreach_execute", "container_execute"):
+                    if s["kind"] in ("simple_command", "printf", "foreach_execute", "container_execute", "foreach_echo"):
                         if g.cmd != e["cmd"] or _j(g.args) != _j(e["args"]):
                             ctx.violation("command-or-arguments-differ-after-load", {"spec": k, "kind": s["kind"], "persisted": [e["cmd"], e["args"]], "loaded": [g.cmd, g.args]}, spec=case)
                     rec = meta_of.get(k)
